@@ -443,6 +443,86 @@ def vp(id, prop, expect, patches, note=""):
     V.append({"id": id, "prop": prop, "expect": expect, "note": note, "edits": [], "patch": patches})
 
 NEUTRAL = {
+    'neutral/setO/n1': ['C16'],
+    'neutral/setO/n11': ['C05', 'C15'],
+    'neutral/setO/n12': ['C05', 'C14'],
+    'neutral/setO/n3': ['C14'],
+    'neutral/setO/n5': ['C17'],
+    'neutral/setO/n6': ['C05', 'C07', 'C14'],
+    'neutral/setO/n7': ['C02', 'C16', 'C10'],
+    'neutral/setO/n8': ['C05', 'C18'],
+    'neutral/setO/n9': ['C14'],
+    'neutral/setP/n1': ['C01', 'C03', 'C04', 'C10', 'C11'],
+    'neutral/setP/n10': ['C05', 'C10', 'C11'],
+    'neutral/setP/n11': ['C13', 'C15'],
+    'neutral/setP/n12': ['C17'],
+    'neutral/setP/n2': ['C02', 'C05', 'C07', 'C10'],
+    'neutral/setP/n3': ['C02', 'C12'],
+    'neutral/setP/n4': ['C01', 'C09', 'C16'],
+    'neutral/setP/n5': ['C03', 'C04', 'C08'],
+    'neutral/setP/n6': ['C04', 'C08'],
+    'neutral/setP/n7': ['C11'],
+    'neutral/setP/n8': ['C05', 'C06'],
+    'neutral/setM/n1': ['C02', 'C10'],
+    'neutral/setM/n10': ['C03', 'C08'],
+    'neutral/setM/n11': ['C05', 'C15'],
+    'neutral/setM/n12': ['C13', 'C15'],
+    'neutral/setM/n2': ['C01', 'C09', 'C16'],
+    'neutral/setM/n3': ['C01', 'C09'],
+    'neutral/setM/n4': ['C11'],
+    'neutral/setM/n5': ['C05', 'C06'],
+    'neutral/setM/n6': ['C19'],
+    'neutral/setM/n7': ['C14'],
+    'neutral/setM/n8': ['C05', 'C07'],
+    'neutral/setM/n9': ['C04', 'C08'],
+    'neutral/setN/n1': ['C01', 'C03', 'C10'],
+    'neutral/setN/n10': ['C09', 'C01'],
+    'neutral/setN/n11': ['C05', 'C14'],
+    'neutral/setN/n12': ['C16'],
+    'neutral/setN/n2': ['C11'],
+    'neutral/setN/n3': ['C13'],
+    'neutral/setN/n4': ['C13'],
+    'neutral/setN/n5': ['C05', 'C06'],
+    'neutral/setN/n6': ['C19'],
+    'neutral/setN/n7': ['C17'],
+    'neutral/setN/n8': ['C12', 'C01'],
+    'neutral/setN/n9': ['C12'],
+    'neutral/setJ/n1': ['C01', 'C03', 'C04', 'C10'],
+    'neutral/setJ/n10': ['C03', 'C04', 'C08'],
+    'neutral/setJ/n11': ['C13', 'C15'],
+    'neutral/setJ/n12': ['C16', 'C09'],
+    'neutral/setJ/n2': ['C02', 'C10'],
+    'neutral/setJ/n3': ['C01', 'C09', 'C16'],
+    'neutral/setJ/n4': ['C11'],
+    'neutral/setJ/n5': ['C05', 'C06'],
+    'neutral/setJ/n6': ['C19'],
+    'neutral/setJ/n7': ['C05', 'C15'],
+    'neutral/setJ/n8': ['C17'],
+    'neutral/setJ/n9': ['C05', 'C07'],
+    'neutral/setK/n1': ['C01', 'C04', 'C05'],
+    'neutral/setK/n10': ['C01', 'C12'],
+    'neutral/setK/n11': ['C17'],
+    'neutral/setK/n12': ['C05', 'C06'],
+    'neutral/setK/n2': ['C01', 'C09', 'C16'],
+    'neutral/setK/n3': ['C11', 'C01'],
+    'neutral/setK/n4': ['C05', 'C06'],
+    'neutral/setK/n5': ['C14'],
+    'neutral/setK/n6': ['C14'],
+    'neutral/setK/n7': ['C11'],
+    'neutral/setK/n8': ['C19'],
+    'neutral/setK/n9': ['C19'],
+    'neutral/setL/n1': ['C03', 'C08'],
+    'neutral/setL/n10': ['C13', 'C15'],
+    'neutral/setL/n11': ['C04', 'C08'],
+    'neutral/setL/n12': ['C17'],
+    'neutral/setL/n2': ['C16'],
+    'neutral/setL/n3': ['C11'],
+    'neutral/setL/n4': ['C05', 'C06'],
+    'neutral/setL/n5': ['C19'],
+    'neutral/setL/n6': ['C05', 'C07', 'C14'],
+    'neutral/setL/n7': ['C01', 'C02', 'C03', 'C04', 'C05', 'C08', 'C10', 'C11'],
+    'neutral/setL/n8': ['C09', 'C01'],
+    'neutral/setL/n9': ['C05', 'C15'],
     'neutral/setI/n1': ['C19'],
     'neutral/setI/n10': ['C14', 'C16', 'C17'],
     'neutral/setI/n11': ['C11', 'C17', 'C18'],
@@ -463,6 +543,7 @@ NEUTRAL = {
     'neutral/setG/n3': ['C01', 'C02', 'C03', 'C04', 'C07', 'C08', 'C10', 'C11', 'C12', 'C14'],
     'neutral/setG/n4': ['C08', 'C09'],
     'neutral/setG/n5': ['C11'],
+    'neutral/setG/n6': ['C05', 'C06'],
     'neutral/setG/n7': ['C05', 'C07', 'C14', 'C15'],
     'neutral/setG/n8': ['C02', 'C09', 'C10', 'C14', 'C16'],
     'neutral/setG/n9': ['C17'],
@@ -577,6 +658,54 @@ v("c18-restore-reader-carried-over", "C18", "C18.f", [(BKP, "\thash := md5.New()
 v("c18-n-restore-reader-local", "C18", "none", [(BKP, "\t\t_, err = io.Copy(&Writer{Sender: stream}, bufio.NewReaderSize(tf, defaultSnapshotChunkSize))", "\t\trd := bufio.NewReaderSize(tf, defaultSnapshotChunkSize)\n\t\t_, err = io.Copy(&Writer{Sender: stream}, rd)")])
 v("c18-api-server-recv-pool", "C18", "C18.f", [(COM, "\t\"google.golang.org/grpc/codes\"\n", "\t\"google.golang.org/grpc/codes\"\n\t\"google.golang.org/grpc/experimental\"\n"), (COM, "\t\tgrpc.KeepaliveParams(keepalive.ServerParameters{MaxConnectionAge: 60 * time.Second}),\n\t\tgrpc.ChainStreamInterceptor(\n\t\t\tauth.StreamServerInterceptor(defaultAuthFunc),", "\t\tgrpc.KeepaliveParams(keepalive.ServerParameters{MaxConnectionAge: 60 * time.Second}),\n\t\texperimental.RecvBufferPool(grpc.NewSharedBufferPool()),\n\t\tgrpc.ChainStreamInterceptor(\n\t\t\tauth.StreamServerInterceptor(defaultAuthFunc),")])
 v("c18-lenbuf-4-in-open", "C18", "C18.a", [(SNP, "\t\tlenBuff: make([]byte, 8),", "\t\tlenBuff: make([]byte, 4),")])
+
+# ---- round 5: rules written for the third-round seeded changes and neutral sets J-L
+v("c01-decode-into-pooled-command", "C01", "C01.k", [(CMD, "\tcmd := &regattapb.Command{}\n\tif err := cmd.UnmarshalVTUnsafe(entry.Cmd); err != nil {", "\tcmd := regattapb.CommandFromVTPool()\n\tif err := cmd.UnmarshalVTUnsafe(entry.Cmd); err != nil {")], "a pooled message keeps zero-length slices of its previous use")
+v("c03-decode-into-pooled-command", "C03", "C03.i", [(CMD, "\tcmd := &regattapb.Command{}\n\tif err := cmd.UnmarshalVTUnsafe(entry.Cmd); err != nil {", "\tcmd := regattapb.CommandFromVTPool()\n\tif err := cmd.UnmarshalVTUnsafe(entry.Cmd); err != nil {")])
+v("c03-restore-decode-resetvt", "C03", "C03.i", [(MGR, "\t\t\tcmd.Reset()\n\t\t\terr = cmd.UnmarshalVT(msg[:n])", "\t\t\tcmd.ResetVT()\n\t\t\terr = cmd.UnmarshalVT(msg[:n])")], "the restore loader recycles its message with ResetVT")
+v("c03-n-decode-var-form", "C03", "none", [(CMD, "\tcmd := &regattapb.Command{}\n\tif err := cmd.UnmarshalVTUnsafe(entry.Cmd); err != nil {", "\tcmd := new(regattapb.Command)\n\tif err := cmd.UnmarshalVTUnsafe(entry.Cmd); err != nil {")])
+v("c03-update-value-carried", "C03", "C03.h", [(FSM, "\tvar idx uint64\n\tfor i := 0; i < len(updates); i++ {", "\tvar idx uint64\n\tvar lastValue uint64\n\tfor i := 0; i < len(updates); i++ {"), (FSM, "\t\tupdates[i].Result.Value = uint64(updateResult)\n", "\t\tif updateResult != 0 {\n\t\t\tlastValue = uint64(updateResult)\n\t\t}\n\t\tupdates[i].Result.Value = lastValue\n")], "the reported result code of an entry falls back to that of an earlier entry of the same apply call")
+v("c03-n-update-counts-entries", "C03", "none", [(FSM, "\tvar idx uint64\n\tfor i := 0; i < len(updates); i++ {", "\tvar idx uint64\n\tapplied := 0\n\tfor i := 0; i < len(updates); i++ {\n\t\tapplied++"), (FSM, "\tp.metrics.applied.Store(idx)\n\tif ctx.leaderIndex != nil {", "\tp.metrics.applied.Store(idx)\n\t_ = applied\n\tif ctx.leaderIndex != nil {")], "a counter carried across entries that reaches no result")
+v("c01-single-delete", "C01", "C01.l", [(DEL, "\t\tif err := ctx.batch.Delete(keyBuf.Bytes(), nil); err != nil {", "\t\tif err := ctx.batch.SingleDelete(keyBuf.Bytes(), nil); err != nil {")])
+v("c02-put-as-merge", "C02", "C02.h", [(PUT, "ctx.batch.Set(", "ctx.batch.Merge(")])
+v("c05-snapshot-arm-live-db", "C05", "C05.h", [(FSM, "\tcase SnapshotRequest:\n\t\tsnapshot := p.pebble.Load().NewSnapshot()\n\t\tdefer snapshot.Close()\n", "\tcase SnapshotRequest:\n\t\tsnapshot := p.pebble.Load()\n")])
+v("c06-nodedeleted-droppable", "C06", "C06.d", [(EVT, "\tcase e.eventsCh <- nodeDeleted{ShardID: info.ShardID, ReplicaID: info.ReplicaID}:\n\t}", "\tcase e.eventsCh <- nodeDeleted{ShardID: info.ShardID, ReplicaID: info.ReplicaID}:\n\tdefault:\n\t}")])
+v("c14-sep-index-gt0", "C14", "C14.g", [(MGR, "strings.Contains(name, \"/\")", "strings.Index(name, \"/\") > 0")], "a separator test that misses a leading '/'")
+v("c14-n-sep-indexbyte", "C14", "none", [(MGR, "strings.Contains(name, \"/\")", "strings.IndexByte(name, '/') >= 0")])
+v("c14-n-sep-count", "C14", "none", [(MGR, "strings.Contains(name, \"/\")", "strings.Count(name, \"/\") != 0")])
+v("c14-diff-set-stores-false", "C14", "C14.e", [(MGR, "\traftTableIDs := make(map[uint64]struct{})", "\traftTableIDs := make(map[uint64]bool)"), (MGR, "\t\traftTableIDs[t.ShardID] = struct{}{}", "\t\traftTableIDs[t.ShardID] = t.LeaderID != 0"), (MGR, "\t\t_, found := raftTableIDs[tID]", "\t\tfound := raftTableIDs[tID]")], "the running set as map[K]bool into which not only true is stored: membership is no longer what is tested")
+v("c19-merge-pointer-param-written", "C19", "C19.a", [(VIEW, "func mergeShardInfo(current dragonboat.ShardView, update dragonboat.ShardView) dragonboat.ShardView {\n", "func mergeShardInfo(current dragonboat.ShardView, update *dragonboat.ShardView) dragonboat.ShardView {\n\tif update.Term < current.Term {\n\t\tupdate.LeaderID = current.LeaderID\n\t}\n"), (VIEW, "mergeShardInfo(current, u)", "mergeShardInfo(current, &u)")], "the update passed by pointer and written through")
+
+# ---- round 5b: rules for the third-round seeded changes C07-C12 and neutral sets M, N
+v("c13-n-get-explicit-unlock", "C13", "none", [(MAP, "\ts.mtx.RLock()\n\tdefer s.mtx.RUnlock()\n\tpair, ok := s.m[key]\n\tif !ok {\n\t\treturn Pair{}, ErrNotExist\n\t}\n\treturn pair, nil", "\ts.mtx.RLock()\n\tpair, ok := s.m[key]\n\ts.mtx.RUnlock()\n\tif !ok {\n\t\treturn Pair{}, ErrNotExist\n\t}\n\treturn pair, nil")], "explicit unlock after the last access")
+v("c13-get-unlock-before-read", "C13", "C13.f", [(MAP, "\ts.mtx.RLock()\n\tdefer s.mtx.RUnlock()\n\tpair, ok := s.m[key]\n\tif !ok {", "\ts.mtx.RLock()\n\ts.mtx.RUnlock()\n\tpair, ok := s.m[key]\n\tif !ok {")])
+v("c19-update-unlock-between", "C19", "C19.b", [(VIEW, "\tv.mtx.Lock()\n\tdefer v.mtx.Unlock()\n\n\tfor _, u := range updates {\n\t\tcurrent, ok := v.shards[u.ShardID]\n\t\tif !ok {\n\t\t\tcurrent = dragonboat.ShardView{ShardID: u.ShardID}\n\t\t}\n\t\tv.shards[u.ShardID] = mergeShardInfo(current, u)\n\t}", "\tfor _, u := range updates {\n\t\tv.mtx.Lock()\n\t\tcurrent, ok := v.shards[u.ShardID]\n\t\tv.mtx.Unlock()\n\t\tif !ok {\n\t\t\tcurrent = dragonboat.ShardView{ShardID: u.ShardID}\n\t\t}\n\t\tmerged := mergeShardInfo(current, u)\n\t\tv.mtx.Lock()\n\t\tv.shards[u.ShardID] = merged\n\t\tv.mtx.Unlock()\n\t}")], "every access under the lock, but the read-merge-write is split over two critical sections")
+v("c19-n-update-lock-per-entry", "C19", "none", [(VIEW, "\tv.mtx.Lock()\n\tdefer v.mtx.Unlock()\n\n\tfor _, u := range updates {\n\t\tcurrent, ok := v.shards[u.ShardID]\n\t\tif !ok {\n\t\t\tcurrent = dragonboat.ShardView{ShardID: u.ShardID}\n\t\t}\n\t\tv.shards[u.ShardID] = mergeShardInfo(current, u)\n\t}", "\tfor _, u := range updates {\n\t\tv.mtx.Lock()\n\t\tcurrent, ok := v.shards[u.ShardID]\n\t\tif !ok {\n\t\t\tcurrent = dragonboat.ShardView{ShardID: u.ShardID}\n\t\t}\n\t\tv.shards[u.ShardID] = mergeShardInfo(current, u)\n\t\tv.mtx.Unlock()\n\t}")], "one critical section per entry (no reader relies on a whole list being merged atomically)")
+v("c07-restore-rpc-not-rewound", "C07", "C07.g", [(MAINT, "\t_, err = sf.Seek(0, io.SeekStart)\n\tif err != nil {\n\t\treturn err\n\t}\n\terr = m.Tables.Restore(", "\terr = m.Tables.Restore(")])
+v("c07-backup-rpc-not-rewound", "C07", "C07.g", [(MAINT, "\t_, err = sf.Seek(0, io.SeekStart)\n\tif err != nil {\n\t\treturn err\n\t}\n\n\t_, err = io.Copy(&snapshot.Writer{Sender: srv}", "\t_, err = io.Copy(&snapshot.Writer{Sender: srv}")])
+v("c07-restore-rpc-skips-unknown-table", "C07", "C07.g", [(MAINT, "\terr = m.Tables.Restore(string(info.Table), sf)\n\tif err != nil {\n\t\treturn err\n\t}", "\tif len(info.Table) > 0 {\n\t\terr = m.Tables.Restore(string(info.Table), sf)\n\t\tif err != nil {\n\t\t\treturn err\n\t\t}\n\t}")])
+v("c08-replace-removes-updating-last", "C08", "C08.c2", [(DIR, "\tif err := fs.Rename(tmpFp, fp); err != nil {\n\t\treturn err\n\t}\n\treturn syncDir(fs, dir)", "\tif err := fs.Rename(tmpFp, fp); err != nil {\n\t\t_ = fs.Remove(fp)\n\t\treturn err\n\t}\n\treturn syncDir(fs, dir)")], "a failed rename answered by removing the published file")
+v("c08-snapshot-recover-closes-new-db-late", "C08", "C08.c", [(SNAP, "\ts.fsm.log.Debugf(\"snapshot recovery cleanup\")\n\treturn rp.CleanupNodeDataDir(s.fsm.fs, s.fsm.dirname)", "\ts.fsm.log.Debugf(\"snapshot recovery cleanup\")\n\tif err := rp.CleanupNodeDataDir(s.fsm.fs, s.fsm.dirname); err != nil {\n\t\t_ = db.Close()\n\t\treturn err\n\t}\n\treturn nil")], "the new DB closed when the final clean-up of the old directories fails")
+v("c12-comparer-own-compare", "C12", "C12.f", [("pebble/pebble.go", "\t\t\tCompare:            pebble.DefaultComparer.Compare,", "\t\t\tCompare:            func(a, b []byte) int { return pebble.DefaultComparer.Compare(b, a) },")])
+v("c12-comparer-split-prefix", "C12", "C12.f", [("pebble/pebble.go", "func split(b []byte) int {\n\treturn len(b)\n}", "func split(b []byte) int {\n\tif len(b) > 4 {\n\t\treturn 4\n\t}\n\treturn len(b)\n}")])
+v("c01-comparer-abbreviated-const", "C01", "C01.m", [("pebble/pebble.go", "\t\t\tAbbreviatedKey:     pebble.DefaultComparer.AbbreviatedKey,", "\t\t\tAbbreviatedKey:     func(b []byte) uint64 { return uint64(len(b)) },")])
+v("c10-forwarded-put-no-wait", "C10", "C10.f", [(KV, "\treturn put, <-r.q.Add(ctx, string(req.Table), put.Header.Revision)", "\tgo func() { <-r.q.Add(ctx, string(req.Table), put.Header.Revision) }()\n\treturn put, nil")])
+
+# ---- round 5c: rules for the third-round seeded changes C13-C19 and neutral sets O, P
+v("c13-set-mismatch-returns-request", "C13", "C13.c", [(RAFT, "\terr = json.Unmarshal(res.Data, &pair)\n\tif err != nil {\n\t\treturn Pair{}, err\n\t}\n\tif res.Value == ResultCodeVersionMismatch {\n\t\treturn pair, ErrVersionMismatch\n\t}\n\treturn pair, nil", "\tif res.Value == ResultCodeVersionMismatch {\n\t\treturn pair, ErrVersionMismatch\n\t}\n\terr = json.Unmarshal(res.Data, &pair)\n\tif err != nil {\n\t\treturn Pair{}, err\n\t}\n\treturn pair, nil")])
+v("c13-mapstore-delete-only-if-version", "C13", "C13.h", [(MAP, "\tdelete(s.m, key)\n\treturn nil", "\tif p, ok := s.m[key]; ok && p.Ver <= ver {\n\t\tdelete(s.m, key)\n\t}\n\treturn nil")], "the map store second-guesses the state machine's gate")
+v("c13-mapstore-set-keeps-higher-version", "C13", "C13.h", [(MAP, "\tp := Pair{Key: key, Value: value, Ver: ver}\n", "\tp := Pair{Key: key, Value: value, Ver: ver}\n\tif old, ok := s.m[key]; ok && old.Ver > ver {\n\t\treturn old, nil\n\t}\n")])
+v("c15-mapstore-set-skips-same-value", "C15", "C15.f", [(MAP, "\tp := Pair{Key: key, Value: value, Ver: ver}\n", "\tif old, ok := s.m[key]; ok && old.Value == value {\n\t\treturn old, nil\n\t}\n\tp := Pair{Key: key, Value: value, Ver: ver}\n")], "agent change C13-r3m3 under the lease property")
+v("c13-n-mapstore-set-pair-local-order", "C13", "none", [(MAP, "\tp := Pair{Key: key, Value: value, Ver: ver}\n\tif s.m == nil {\n\t\ts.m = make(map[string]Pair)\n\t}\n\ts.m[key] = p", "\tif s.m == nil {\n\t\ts.m = make(map[string]Pair)\n\t}\n\tp := Pair{Ver: ver, Value: value, Key: key}\n\ts.m[key] = p")])
+v("c14-delete-notfound-on-any-error", "C14", "C14.d", [(MGR, "\treturn m.store.Delete(storeName, tab.Ver)\n}", "\tif err := m.store.Delete(storeName, tab.Ver); err != nil {\n\t\tm.log.Warnf(\"delete of %s refused: %v\", name, err)\n\t}\n\treturn nil\n}")], "the versioned delete's refusal only logged")
+v("c14-n-delete-explicit-check", "C14", "none", [(MGR, "\treturn m.store.Delete(storeName, tab.Ver)\n}", "\tif err := m.store.Delete(storeName, tab.Ver); err != nil {\n\t\treturn err\n\t}\n\treturn nil\n}")])
+v("c14-listing-skips-recovering", "C14", "C14.k", [(MGR, "\t\ttables[tab.Name] = tab\n", "\t\tif tab.RecoverID != 0 && tab.ClusterID == 0 {\n\t\t\tcontinue\n\t\t}\n\t\ttables[tab.Name] = tab\n")])
+v("c16-iter-prealloc-limit", "C16", "C16.f", [(ITER, "\t\ti := 0\n\t\tfor {\n", "\t\tif limit > 0 {\n\t\t\tresponse.Kvs = make([]*regattapb.KeyValue, 0, limit)\n\t\t}\n\t\ti := 0\n\t\tfor {\n")], "agent change C16-r3m2 in a simpler form")
+v("c16-n-iter-prealloc-min", "C16", "none", [(ITER, "\t\ti := 0\n\t\tfor {\n", "\t\tif limit > 0 {\n\t\t\tresponse.Kvs = make([]*regattapb.KeyValue, 0, min(limit, 64))\n\t\t}\n\t\ti := 0\n\t\tfor {\n")], "a preallocation bounded by a constant")
+v("c16-put-handler-refuses-empty-value", "C16", "C16.h", [(PUT, "func handlePut(ctx *updateContext, put *regattapb.RequestOp_Put) (*regattapb.ResponseOp_Put, error) {\n", "func handlePut(ctx *updateContext, put *regattapb.RequestOp_Put) (*regattapb.ResponseOp_Put, error) {\n\tif len(put.Key) == 0 {\n\t\treturn nil, fmt.Errorf(\"empty key\")\n\t}\n"), (PUT, "import (\n", "import (\n\t\"fmt\"\n")], "validation behind the proposal: the apply path refuses a committed command")
+v("c17-capool-lazy", "C17", "C17.e", [(TLS, "\tcertPool := x509.NewCertPool()\n", "\tvar certPool *x509.CertPool\n"), (TLS, "\t\t\tcertPool.AddCert(cert)", "\t\t\tif certPool == nil {\n\t\t\t\tcertPool = x509.NewCertPool()\n\t\t\t}\n\t\t\tcertPool.AddCert(cert)")], "agent change C17-r3m1")
+v("c18-writer-readfrom-value-copy", "C18", "C18.g", [(MAINT, "io.Copy(&snapshot.Writer{Sender: srv}, ", "io.Copy(snapshot.Writer{Sender: srv}, "), (SNP, "func (g *Writer) Write(", "func (g Writer) Write(")], "the stream writer handed to io.Copy by value: ReadFrom (pointer receiver) is not in its method set")
+v("c19-merge-remote-decodes-into-field", "C19", "C19.c", [(CLU, "\tremote := &clusterState{}\n\t_ = json.Unmarshal(buf, remote)\n\tc.shardView.update(remote.ShardView)", "\t_ = json.Unmarshal(buf, &c.remote)\n\tc.shardView.update(c.remote.ShardView)"), (CLU, "\tshardView  *shardView\n\tinfoF      getClusterInfo\n}", "\tshardView  *shardView\n\tinfoF      getClusterInfo\n\tremote     clusterState\n}")], "agent change C19-r3m1 without the lock")
 
 # the confirmed seeded changes of the sub-agents (section 11.4 of DESIGN.md) as overlays: the same
 # patches tools/run_seeded.sh applies to /repo, here without touching it
